@@ -114,7 +114,7 @@ def run_fuzz(r, target, pid, secs, empty_corpus_too=False):
             if fails < 3:
                 r.stats.extra["fuzz_flaky_artifacts"] += 1
                 continue
-            keep = os.path.join(VERIF, "replays", pid)
+            keep = os.path.join(os.environ.get("VERIF_REPLAY_DIR") or os.path.join(VERIF, "replays"), pid)
             os.makedirs(keep, exist_ok=True)
             dst = os.path.join(keep, "fuzz-" + a)
             shutil.copy(p, dst)
